@@ -234,7 +234,7 @@ func runCheck(eng *Engine, o checkOpts, t0 time.Time) int {
 			continue
 		}
 		rp := eng.Replay(rw.r, d, filepath.Join(outDir, "replay"))
-		if len(rw.r.Exec.staleClauses) > 0 && !rp.Confirmed {
+		if onlyRenames(rw.r.Exec.staleClauses) && !rp.Confirmed {
 			// the contract's loop clauses no longer fit the code (e.g. a renamed
 			// local): without them the obligation cannot be decided; only a
 			// counterexample that replays on the real code counts
@@ -286,6 +286,7 @@ func runCheck(eng *Engine, o checkOpts, t0 time.Time) int {
 		"go/packages + go/ssa (x/tools v0.29.0) extract the verified text from /repo's working tree with -tags=verif; SSA construction, this VC generator and its SMT encodings are trusted",
 		"int/uint are 64-bit two's-complement bit-vectors (GOARCH=amd64); floats are IEEE-754 binary64 with RNE; no mathematical integers are used for program values",
 		"verifGlobals(): package-level variables named there are initialised once and never reassigned",
+		"a value of type ugo.Object (argument, element, result of an Object method) is nil or well formed: it never holds a typed nil pointer of one of the module's own object types",
 		"goroutines, channels, select and recover are not modelled; sync locks are no-ops (sequential semantics)",
 		"memory exhaustion and Go stack depth are not modelled",
 	}, assumptions...)
@@ -349,3 +350,18 @@ func runCheck(eng *Engine, o checkOpts, t0 time.Time) int {
 }
 
 func round3(f float64) float64 { return float64(int(f*1000+0.5)) / 1000 }
+
+// onlyRenames: there are stale loop clauses and all of them are stale because
+// a variable they name no longer exists (a renamed or removed local), not
+// because the loop itself changed shape.
+func onlyRenames(stale []string) bool {
+	if len(stale) == 0 {
+		return false
+	}
+	for _, s := range stale {
+		if !strings.Contains(s, "unknown identifier") && !strings.Contains(s, "not found at loop header") {
+			return false
+		}
+	}
+	return true
+}
